@@ -548,5 +548,5 @@ def run(tier, seed):
             "/dev/full, stdout /dev/full or closed, missing ext/TLA files): exit 1 with a message; (4) failing "
             "programs of every error family: stdout empty, -o file neither created nor modified. "
             "distinct_nontrivial = distinct (source/value, argv) cases decided.")
-    return common.finish(PROP, tier, seed, total, rule, t0,
+    return common.finish(PROP, tier, seed, total, rule, t0, level="fault_enumeration",
                          assumptions=["the plain run's output is the reference for the other modes (its validity is C05's)"])
